@@ -236,7 +236,7 @@ class D:
 
 
 DICTS = ('dict', 'odict', 'ddict')
-LEAF_STYLES = ('L', 'L', 'L', 'L', 'int', 'str', 'nan', 'bytes', 'ListSub', 'TupleSub', 'DictSub', 'ODictSub', 'DDictSub', 'DequeSub', 'FakeNT', 'UserDict', 'obj')
+LEAF_STYLES = ('L', 'L', 'L', 'L', 'dupL', 'int', 'str', 'nan', 'bytes', 'ListSub', 'TupleSub', 'DictSub', 'ODictSub', 'DDictSub', 'DequeSub', 'FakeNT', 'UserDict', 'obj')
 
 
 class Profile:
@@ -313,7 +313,7 @@ class TreeGen:
             cls = rng.choice(U.NAMEDTUPLES)
             return D('nt', kids(len(cls._fields)), cls=cls)
         if k == 'ss':
-            cls = rng.choice(U.STRUCTSEQS[:4])
+            cls = rng.choices(U.STRUCTSEQS, [4, 3, 3, 2, 1, 1])[0]
             return D('ss', kids(U.STRUCTSEQ_ARITY[cls]), cls=cls)
         meta = rng.choice([None, 0, 'm', ('t', 1), 'other', 1000, 'a longer metadata string', (257, 'x', 2.5)])
         if k == 'cseq':
@@ -398,7 +398,12 @@ class Mat:
         i = next(self.n)
         s = d.meta
         rng = self.rng
-        if s == 'L' or s is None:
+        if s == 'dupL':
+            prev = [y for y in self.leaf_objs if type(y) is U.Leaf]
+            x = rng.choice(prev) if prev else U.Leaf(i)  # the same leaf object at several positions
+            if prev:
+                self.hist_classes.add('shared-leaf-object')
+        elif s == 'L' or s is None:
             x = U.Leaf(i)
         elif s == 'int':
             x = rng.randrange(-5, 300)
